@@ -457,10 +457,14 @@ def _run(tok):
     if op == "xk_parse":
         klass = bip32.PrvKeyNode if a[0] == "P" else bip32.PubKeyNode
         t = unbool(a[1])
-        if a[2] == "s":
+        if a[2] == "s" and len(a) == 4:
             return nodeS(klass.parse(unstr(a[3]), testnet=t))
-        if a[2] == "b":
+        if a[2] == "b" and len(a) == 4:
             return nodeS(klass.parse(bytes(unhex(a[3])), testnet=t))     # parse() dispatches on the exact type bytes
+        if len(a) > 4:
+            # parse (with the class asked for — also the OTHER class than the key's own kind), then derive along a path
+            src = unstr(a[3]) if a[2] == "s" else bytes(unhex(a[3])) if a[2] == "b" else io.BytesIO(unhex(a[3]))
+            return nodeS(klass.parse(src, testnet=t).derive_path(_seq(unlist(int, a[4]))))
         st = io.BytesIO(unhex(a[3]))
         if a[2].startswith("io@"):
             st.read(int(a[2][3:]))      # stream positioned after earlier records / a header
@@ -750,7 +754,53 @@ def _run(tok):
     raise KeyError("unknown op " + op)
 
 
-def cli_run(fs, osbytes, argv, keep=None):
+def _snapshot(root):
+    """every file (content), symlink (target) and directory below root"""
+    out = {}
+    for dp, dns, fns in os.walk(root):
+        for nm in dns + fns:
+            p_ = os.path.join(dp, nm)
+            rel = os.path.relpath(p_, root)
+            if os.path.islink(p_):
+                out[rel] = "-> " + os.readlink(p_)
+            elif os.path.isdir(p_):
+                out[rel] = "<dir>"
+            else:
+                try:
+                    out[rel] = open(p_, errors="replace").read()
+                except OSError:
+                    out[rel] = "<unreadable>"
+    return out
+
+
+class _InterruptAt:
+    """crash point: the k-th HMAC-SHA512 call of the run (every child derivation and BIP85 request makes one) raises
+    KeyboardInterrupt — what Ctrl-C / SIGINT does to a run that is in the middle of its derivations"""
+
+    def __init__(self, k):
+        self.k = k
+        self.calls = 0
+
+    def __enter__(self):
+        _prf_lock.acquire()
+        self.saved = (bip32.hmac_sha512, bip85.hmac_sha512)
+        real = self.saved[0]
+
+        def counting(key, msg):
+            self.calls += 1
+            if self.calls == self.k:
+                raise KeyboardInterrupt()
+            return real(key=key, msg=msg)
+        bip32.hmac_sha512 = counting
+        bip85.hmac_sha512 = counting
+        return self
+
+    def __exit__(self, *a):
+        bip32.hmac_sha512, bip85.hmac_sha512 = self.saved
+        _prf_lock.release()
+
+
+def cli_run(fs, osbytes, argv, keep=None, interrupt_at=None):
     """Run `main()` in-process on argv (token `@F` = the --file path of class `fs`).
     Returns (canonical outcome, details dict)."""
     import contextlib
@@ -788,6 +838,36 @@ def cli_run(fs, osbytes, argv, keep=None):
         elif fs == "dangling":
             os.symlink(os.path.join(tmp, "nowhere", "x.json"), os.path.join(tmp, "out.json"))
             path = os.path.join(tmp, "out.json")
+        # an EXISTING file named by another spelling of its path (real program only): `./`, a doubled slash, `sub/..`
+        # through a real directory, `link/..` through a symlinked directory (the OS resolves the link BEFORE `..`, a
+        # lexical clean-up does not), a symlink to the file, a path relative to the working directory
+        elif fs.startswith("alias-"):
+            kind_ = fs[6:]
+            target = os.path.join(tmp, "out.json")
+            if kind_ == "linkdotdot":
+                os.makedirs(os.path.join(tmp, "real", "deep"))
+                os.symlink(os.path.join("real", "deep"), os.path.join(tmp, "link"))
+                target = os.path.join(tmp, "real", "out.json")
+                path = os.path.join(tmp, "link", "..", "out.json")
+            elif kind_ == "subdotdot":
+                os.mkdir(os.path.join(tmp, "sub"))
+                path = os.path.join(tmp, "sub", "..", "out.json")
+            elif kind_ == "dotslash":
+                path = os.path.join(tmp, ".", "out.json")
+            elif kind_ == "dblslash":
+                path = tmp + "//out.json"
+            elif kind_ == "symfile":
+                os.symlink("out.json", os.path.join(tmp, "alias.json"))
+                path = os.path.join(tmp, "alias.json")
+            elif kind_ == "relative":
+                path = "out.json"                  # the run's working directory is the scratch directory
+            elif kind_ == "reldotdot":
+                path = os.path.join("..", os.path.basename(tmp), "out.json")
+            else:
+                raise BadOp()
+            with open(target, "w") as f:
+                f.write("EXISTING")
+            alias_before = _snapshot(tmp)
         # files that already live next to the target (editor back-ups, temporary and look-alike names): whatever the
         # program does, every one of them must be byte-identical afterwards
         sib_dir = os.path.dirname(path)
@@ -809,15 +889,19 @@ def cli_run(fs, osbytes, argv, keep=None):
         status = 0
         # the program runs with the scratch directory as working directory: anything it writes relative to the current
         # directory (a default file name, a temporary file) lands where it is seen and compared
-        os.chdir(sib_dir if os.path.isdir(sib_dir) else tmp)
+        os.chdir(tmp if fs.startswith("alias-") else sib_dir if os.path.isdir(sib_dir) else tmp)
         try:
-            with contextlib.redirect_stdout(out), contextlib.redirect_stderr(err), _Urandom(osbytes):
+            with contextlib.redirect_stdout(out), contextlib.redirect_stderr(err), _Urandom(osbytes), \
+                    _InterruptAt(interrupt_at) as intr:
                 try:
                     cli.main()
                 except SystemExit as e:
                     status = e.code if isinstance(e.code, int) else (0 if e.code is None else 1)
+                except KeyboardInterrupt:
+                    status = 130
                 except BaseException:
                     status = 1
+            hmac_calls = intr.calls
         finally:
             sys.argv = saved_argv
             os.chdir(saved_cwd)
@@ -829,7 +913,15 @@ def cli_run(fs, osbytes, argv, keep=None):
                                                                   "stderr": "", "sibling": nm}
         listing = sorted(x for x in os.listdir(tmp) if x not in siblings)
         created = None
-        if fs == "file":
+        if fs.startswith("alias-"):
+            after = _snapshot(tmp)
+            if after != alias_before:
+                changed = sorted(k_ for k_ in set(after) | set(alias_before) if after.get(k_) != alias_before.get(k_))
+                if any(alias_before.get(k_) == "EXISTING" for k_ in changed):
+                    return "overwrote-existing-file", {"status": status}
+                return "unexpected-files %s" % changed, {"status": status}
+            extra = []
+        elif fs == "file":
             if open(path).read() != "EXISTING":
                 return "overwrote-existing-file", {"status": status}
             extra = [x for x in listing if x != "out.json"]
@@ -851,7 +943,8 @@ def cli_run(fs, osbytes, argv, keep=None):
                 created = open(path).read()
             else:
                 return "unexpected-files %s" % extra, {"status": status}
-        det = {"status": status, "stdout": stdout, "created": created, "stderr": err.getvalue()[-300:]}
+        det = {"status": status, "stdout": stdout, "created": created, "stderr": err.getvalue()[-300:],
+               "hmac_calls": hmac_calls}
         if status != 0:
             if created is not None:
                 return "nonzero-status-but-file-created", det
